@@ -36,6 +36,7 @@ CONSTANTS
   Acts,        \* enabled run actions
   MinSteps, MaxSteps,
   RationalOnly,\* TRUE: updates/readings must be in the rational fragment
+  NeedDt,      \* TRUE: some update expression must depend on dt (time-stepping matters)
   BindLeaves,  \* TRUE: symbol leaves may be bound even when something was grown
   EmitOn,      \* FALSE: invariant checking only, nothing is printed
   NameSeq      \* <<>>: names are drawn freely from SymNames; otherwise taken in this order
@@ -181,6 +182,7 @@ MkDef ==
 \* the gate threshold were fixed at Init in `prm`)
 Compile ==
   /\ phase = "bind" /\ Len(upd) = shape.nS /\ Len(sens) = NReadingsTotal
+  /\ (NeedDt => \E i \in DOMAIN upd : "dt" \in FreeSyms(upd[i]))
   /\ def' = MkDef
   /\ phase' = "run"
   /\ UNCHANGED <<shape, prm, names, skeys, rnames, pts, pool, upd, sens, est, steps, last>>
@@ -271,7 +273,7 @@ UpdateCommon(key, rz, K) ==
   /\ CanStep /\ est # <<>> /\ key \in RangeOf(skeys) /\ rz \in (-1)..(Len(ZDeltas) - 1)
   /\ ~NVecBad(Pred(def, key, est.x)) /\ ~NMatBad(SensJac(def, key, est.x))
   /\ ~NVecBad(K.innov) /\ ~NMatBad(K.S) /\ ~IsBad(K.detS) /\ RSign(K.detS) > 0
-  /\ RLeq(One, K.detS)                               \* conditioning window (DESIGN 3.1)
+  /\ Fits(K.detS) /\ RLeq(One, K.detS)                               \* conditioning window (DESIGN 3.1)
   /\ ~NMatBad(K.Sinv) /\ ~IsBad(K.nis) /\ ~GateBad(def.k, K.m, K.nis)
 
 UpdateAccept(key, rz) ==
